@@ -284,10 +284,24 @@ func propC04(r *kernel.Run) {
 		case 3: // correctly encrypted, but a different nonce inside
 			in2 := proto.Clone(inner).(*types.NodeCredentials)
 			in2.RegistrationNonce = append([]byte(nil), in2.RegistrationNonce...)
-			in2.RegistrationNonce[0] ^= 1
+			what = "different-nonce-inside"
+			switch n := in2.RegistrationNonce; tp.Draw(5) {
+			case 0:
+				n[0] ^= 1
+			case 1:
+				n[len(n)-1] ^= 0x80
+			case 2: // nothing echoed
+				in2.RegistrationNonce = nil
+				what = "different-nonce-inside/empty"
+			case 3: // a proper prefix of the nonce
+				in2.RegistrationNonce = n[:tp.Range(1, len(n)-1)]
+				what = "different-nonce-inside/prefix"
+			case 4: // the nonce followed by more bytes
+				in2.RegistrationNonce = append(n, tp.Bytes(tp.Range(1, 8))...)
+				what = "different-nonce-inside/extended"
+			}
 			ct, _ := nodeenrollment.EncryptMessage(contextBG, in2, keySrc{kid, shared})
 			bad.EncryptedNodeCredentials = ct
-			what = "different-nonce-inside"
 		case 4: // server public key swapped
 			k, _ := ecdh.X25519().GenerateKey(rand.Reader)
 			bad.ServerEncryptionPublicKeyBytes = k.PublicKey().Bytes()
